@@ -60,6 +60,24 @@ func TestCheck(t *testing.T) {
 	} {
 		r.Floor(s, 5)
 	}
+	for _, s := range []string{
+		"nfs:reopen-with-locks-held", "nfs:retransmit-lock", "nfs:retransmit-locku",
+		"nfs:current-stateid:open+lock", "nfs:current-stateid:lock+locku",
+		"nfs:session-recreated-with-locks-held", "nfs:reboot-refused-while-io-in-flight:locks-held",
+		"nfs:last-lock-gone-by:locku", "nfs:last-lock-gone-by:close", "nfs:last-lock-gone-by:release-lockowner",
+		"nfs:last-lock-gone-by:free-stateid", "nfs:last-lock-gone-by:lease-expiry", "nfs:last-lock-gone-by:client-reboot",
+		"nfs:relock-after:locku", "nfs:relock-after:close", "nfs:relock-after:release-lockowner",
+		"nfs:relock-after:free-stateid", "nfs:relock-after:lease-expiry", "nfs:relock-after:client-reboot",
+		"nfs:stale:lock:wrong-file", "nfs:stale:locku:wrong-file", "nfs:stale:lock:old-seqid", "nfs:stale:locku:old-seqid",
+		"nfs:stale:lock:future-seqid", "nfs:stale:lock:anonymous-stateid", "nfs:stale:lock:dead-lock-stateid",
+		"nfs:stale:locku:dead-lock-stateid", "nfs:stale:lock:dead-open-stateid", "nfs:stale:close:dead-open-stateid",
+		"nfs:stale:lock:superseded-open-stateid", "nfs:stale:lock:open-stateid-wrong-file", "nfs:stale:lock:foreign-clientid",
+		"nfs:stale:lock:wrong-lock-seqid", "nfs:stale:lock:unconfirmed-open-owner", "nfs:stale:free-stateid:dead-lock-stateid",
+		"nfs:stale:free-stateid:old-seqid", "nfs:stale:destroy-clientid:busy", "nfs:stale:zombie:lockt", "nfs:stale:zombie:locku",
+		"nfs:stale:zombie:lock-new",
+	} {
+		r.Floor(s, 5)
+	}
 	r.Floor("nfs:same-lock-owner-via-two-open-owners:same-file", 5)
 	r.Floor("nfsconc:same-lock-owner-via-two-open-owners:same-file", 3)
 
